@@ -39,8 +39,16 @@ def shadow_creation(chk, pid):
     # the copy carries a deep copy of the whole live tree with it (deepcopy follows .parent): the root pointer of every node BELOW the shadow still names that dead copy
     # unless the re-rooting descends - a node whose root is the dead copy marks the wrong tree stale and, when an algo refreshes `target.root`, updates a tree that was
     # never set up (a sub-strategy two levels down raises on its first rebalance)
+    import ast as _ast
+
+    def _sets_root(f):
+        # a method that stores one of its parameters into self.root (whatever it is called)
+        ps = set(f.params)
+        return any(isinstance(n, _ast.Assign) and any(isinstance(t, _ast.Attribute) and t.attr == "root" and isinstance(t.value, _ast.Name) and t.value.id == "self" for t in n.targets)
+                   and isinstance(n.value, _ast.Name) and n.value.id in ps for n in _ast.walk(f.node))
+    rooters = set(f.name for f in chk.prog.all_functions(modules=(CORE,)) if _sets_root(f)) | {"_set_root"}
     below = [e for e in S.events if e.seq < w.seq and sym.contains(e.recv if e.kind == "call" else e.obj if e.kind == "write" else None, lambda n: n == paper or canon(n) == canon(paper))
-             and ((e.kind == "call" and e.name == "_set_root" and e.args and canon(e.args[0]) == canon(paper) and canon(e.recv) != canon(paper))
+             and ((e.kind == "call" and e.name in rooters and any(canon(a) == canon(paper) for a in (e.args or ())) and canon(e.recv) != canon(paper))
                   or (e.kind == "write" and e.field == "root" and canon(e.value) == canon(paper) and canon(e.obj) != canon(paper)))]
     chk.ob("C09.R1", bool(below), CORE, host, "shadow-subtree-rerooted", "every node below the shadow is re-rooted at the shadow too (the copy is a stand-alone TREE, not a stand-alone node)",
            where=ws["root"].where if "root" in ws else fi.where, expected="paper._set_root(paper) (or an equivalent descent over the copy's children)", found="only the copy's own root is set")
@@ -48,7 +56,8 @@ def shadow_creation(chk, pid):
     chk.ob("C09.R1", ok, CORE, host, "shadow-not-paper-trading", "the shadow itself computes its own index (no shadow of the shadow)", where=fi.where)
     calls = [e for e in S.events if e.kind == "call" and e.recv is not None and canon(e.recv) == canon(paper)]
     other_calls = [e for e in calls if e.name not in ("setup", "adjust") and not (e.inlined and e.name.startswith("_") and not e.name.startswith("__"))]
-    other_writes = [x for x in S.events if x.kind == "write" and canon(x.obj) == canon(paper) and x.field not in ("parent", "root", "_paper_trade")]
+    other_writes = [x for x in S.events if x.kind == "write" and canon(x.obj) == canon(paper) and x.field not in ("parent", "root", "_paper_trade")
+                    and not (isinstance(x.value, tuple) and x.value and x.value[0] == "fld" and x.value[2] == x.field and canon(x.value[1]) == canon(paper))]  # a field stored back into itself changes nothing
     chk.ob("C09.R1", not other_calls and not other_writes, CORE, host, "shadow-keeps-settings",
            "nothing else is changed on the shadow: it must run with exactly the settings (position mode, commissions, algos) of the live sub-strategy", where=fi.where,
            expected="only parent / root / _paper_trade, setup() and adjust()", found="; ".join([e.name + "()" for e in other_calls] + ["." + x.field for x in other_writes]))
